@@ -309,3 +309,31 @@ def variant_copy(ctx, P, rule="VARIANT-COPY"):
             filled = [a for c_, a, n in F.calls if c_ in ("tsk_memcpy", "memcpy") and a and a[0] == lhs]
             okf = bool(filled) and filled[0][1] == "%s->%s" % (src_, f) and ("sizeof(*%s)" % lhs) in filled[0][2].replace(" ", "").replace("sizeof(*", "sizeof(*")
             ctx.ob(rule, "fill|%s" % f, okf, tu.loc(fn.node), "memcpy(%s, %s->%s, n * sizeof(*%s)): %s" % (lhs, src_, f, lhs, filled[0] if filled else None))
+
+
+def reduce_site_set(ctx, P, rule="SIMPLIFY-REDUCE-SITES"):
+    """C04 asks that simplifying the result again changes nothing.  With reduce_to_site_topology the trees are reduced to what
+    is visible at a SET of site positions; the result is a fixed point only if that set is the set of sites the output keeps."""
+    import re
+    ctx.rule(rule, "the site positions that drive TSK_SIMPLIFY_REDUCE_TO_SITE_TOPOLOGY are the positions of the sites simplify outputs: "
+                   "simplifier_init_position_lookup takes its positions from the input site table, so it must either be restricted "
+                   "to the sites that TSK_SIMPLIFY_FILTER_SITES will keep or site filtering must be off when it is used; otherwise "
+                   "a second simplify, which sees only the retained sites, coarsens the trees again (not a fixed point)")
+    tu = P.tus["tables"]
+    fn = P.need("simplifier_init_position_lookup", "tables")
+    src = " ".join(tu.src(fn.body).split())
+    from_input = "input_tables.sites.position" in src
+    ctx.ob(rule, "position_lookup|source", from_input, tu.loc(fn.node),
+           "position_lookup is copied from input_tables.sites.position (every input site)" if from_input else
+           "position_lookup is no longer built from the input site table: re-read the function")
+    restricted = re.search(r"filter_sites|FILTER_SITES|mutations|site_id_map", src) is not None
+    # or: the caller refuses / disables filtering when reducing
+    init = P.need("simplifier_init", "tables")
+    isrc = " ".join(tu.src(init.body).split())
+    guarded = re.search(r"REDUCE_TO_SITE_TOPOLOGY[^;{]*FILTER_SITES|FILTER_SITES[^;{]*REDUCE_TO_SITE_TOPOLOGY", isrc) is not None
+    ok = restricted or guarded
+    ctx.ob(rule, "position_lookup|retained-sites", ok, tu.loc(fn.node),
+           "the reduction uses the sites that are retained" if ok else
+           "the reduction uses every input site while TSK_SIMPLIFY_FILTER_SITES (the default) then drops the sites without mutations: "
+           "simplify(reduce_to_site_topology=True) is not idempotent")
+    return 2
